@@ -902,7 +902,7 @@ func (c *Ctx) smtFuncSort(name string) (string, bool) {
 		}
 	}
 	switch name {
-	case "pow2", "go.div", "go.mod", "nl.div", "nl.mod", "nl.mul", "gs.len", "gs.at", "band8", "bor8", "bxor8", "bnot8", "shl8", "shr8", "val8", "bit.and", "bit.or", "bit.xor", "bit.andnot":
+	case "idx", "pow2", "go.div", "go.mod", "nl.div", "nl.mod", "nl.mul", "gs.len", "gs.at", "band8", "bor8", "bxor8", "bnot8", "shl8", "shr8", "val8", "bit.and", "bit.or", "bit.xor", "bit.andnot":
 		return "Int", true
 	case "gs.lt", "bit8", "bs.lt":
 		return "Bool", true
@@ -1012,6 +1012,16 @@ func (e *SpecEnv) call(x *ECall) TV {
 			}
 		}
 		efail("objkey needs a pointer or an interface value")
+	case "freshkey":
+		// freshkey(k): the object identified by objkey value k did not exist at function entry (for the address of an
+		// embedded field: the enclosing object did not)
+		v := e.eval(x.Args[0])
+		c.usesObjKey = true
+		wm := e.WM0
+		if wm == "" {
+			wm = "WM!0"
+		}
+		return specTV(fmt.Sprintf("(ite (>= (okey.v %s) 0) (> (okey.v %s) %s) (> (intr.r (okey.v %s)) %s))", v.T, v.T, wm, v.T, wm), "Bool")
 	case "fresh":
 		// fresh(x): the reference did not exist at function entry
 		v := e.eval(x.Args[0])
